@@ -1,7 +1,7 @@
 (* C12 -- set_use_caps keeps the polygon region when doubles are caps with identical membership. *)
 From Coq Require Import ZArith QArith List Bool Lia.
 Import ListNotations.
-From PV Require Import C12.Model C12.Proofs C12.SetUse.
+From PV Require Import C12.Spec Generated.Mangle C12.Model C12.Proofs C12.SetUse.
 Open Scope Z_scope.
 
 (* Removing doubles does not change the region when doubles are caps with the same membership (exact
@@ -18,7 +18,7 @@ Lemma dedup_preserves_region P dup u1 ncaps p :
 Proof.
   intros Hwf Hsame. apply eq_true_iff_eq.
   rewrite !in_polygon_spec by exact Hwf.
-  assert (forall u, usencaps (with_use P u) ncaps = usencaps P ncaps) as Eu by reflexivity.
+  assert (forall u, spec_usencaps (with_use P u) ncaps = spec_usencaps P ncaps) as Eu by reflexivity.
   rewrite !Eu. cbn [with_use puse pcaps].
   pose proof (usencaps_le P ncaps) as Hle.
   set (sel := fun b => Z.testbit u1 (Z.of_nat b)).
@@ -45,6 +45,6 @@ Lemma set_use_caps_preserves_region P idx o ncaps p :
   in_polygon (with_use P (set_use_caps P idx o)) ncaps p
   = in_polygon (with_use P (set_bits (if o_add o then puse P else 0) idx)) ncaps p.
 Proof.
-  intros Hwf Hd Hsame. unfold set_use_caps. cbv zeta. rewrite Hd.
+  intros Hwf Hd Hsame. unfold set_use_caps. cbv zeta. rewrite Hd, gen_initial_use_eq.
   apply dedup_preserves_region; assumption.
 Qed.
